@@ -24,8 +24,19 @@ def load_ledger(prop):
     return None
 
 
+_native_cache = {}
+
+
 def run_native(script, timeout=300):
-    """Run a replay script against the real code (nutils is installed editable from /repo/src)."""
+    """Run a replay script against the real code (nutils is installed editable from /repo/src).
+    Results are memoised per script text within one check: many failing obligations of one contract family share a replay."""
+    key = (script, os.environ.get('VERIF_REPO', '/repo'))
+    if key not in _native_cache:
+        _native_cache[key] = _run_native(script, timeout)
+    return _native_cache[key]
+
+
+def _run_native(script, timeout=300):
     env = dict(os.environ)
     env.pop('PYTHONPATH', None)
     env['PYTHONDONTWRITEBYTECODE'] = '1'
